@@ -104,14 +104,20 @@ pub fn parameters_cursor() {
         if required {
             let r = params.next_token();
             match kind {
-                0 => assert!(match r { Ok(t) => tok_same(&t, &script[np - 1].unwrap().unwrap()), Err(_) => false }, "C06/Parameters::next_token/returns-the-next-data-element-of-this-unit-unmodified"),
+                0 => {
+                    assert!(match r { Ok(t) => t.is_data(), Err(_) => true }, "C01/Parameters::next_token/only-data-elements-are-handed-to-conversions");
+                    assert!(match r { Ok(t) => tok_same(&t, &script[np - 1].unwrap().unwrap()), Err(_) => false }, "C06/Parameters::next_token/returns-the-next-data-element-of-this-unit-unmodified")
+                }
                 1 | 3 => assert!(is_err_code(&r, -109), "C06/Parameters::next_token/missing-required-parameter-is-109"),
                 _ => assert!(match r { Err(e) => e == Error::new(script[np].unwrap().unwrap_err()), Ok(_) => false }, "C06/Parameters::next_token/lexer-error-is-passed-on"),
             }
         } else {
             let r = params.next_optional_token();
             match kind {
-                0 => assert!(match r { Ok(Some(t)) => tok_same(&t, &script[np - 1].unwrap().unwrap()), _ => false }, "C06/Parameters::next_optional_token/returns-the-next-data-element-of-this-unit-unmodified"),
+                0 => {
+                    assert!(match r { Ok(Some(t)) => t.is_data(), _ => true }, "C01/Parameters::next_optional_token/only-data-elements-are-handed-to-conversions");
+                    assert!(match r { Ok(Some(t)) => tok_same(&t, &script[np - 1].unwrap().unwrap()), _ => false }, "C06/Parameters::next_optional_token/returns-the-next-data-element-of-this-unit-unmodified")
+                }
                 1 => assert!(matches!(r, Ok(None)), "C06/Parameters::next_optional_token/absent-when-the-unit-has-no-further-data"),
                 3 => assert!(is_err_code(&r, -109), "C06/Parameters::next_optional_token/dangling-separator-is-109"),
                 _ => assert!(match r { Err(e) => e == Error::new(script[np].unwrap().unwrap_err()), _ => false }, "C06/Parameters::next_optional_token/lexer-error-is-passed-on"),
